@@ -13,7 +13,7 @@
    current tree.  [executed s] is the log of (item, clock when it was popped for its callback).
    [fresh_ids evs]: every Enqueue call hands over a distinct object. *)
 From Kit Require Import C06.Model C06.Spec C06.Check C06.ProofsQueue C06.ProofsInv C06.Proofs
-  C06.ProofsProgress C06.ProofsOracle C06.ProofsExamples C06.ProofsOnTime.
+  C06.ProofsProgress C06.ProofsOracle C06.ProofsExamples C06.ProofsOnTime C06.ProofsLive C06.ProofsCheck.
 
 (* Exactly once, and only live instances (both versions of the code).  Whatever happened before
    ([evs]), one more event [e] either leaves the execution log alone or appends exactly one entry
@@ -227,6 +227,55 @@ Theorem C06_order_trace : forall v t evs1 s1 evs2 s,
               Sorted.StronglySorted due_le (filter (was_queued (q s1)) (rev new)).
 Proof. exact order_sorted. Qed.
 Print Assumptions C06_order_trace.
+
+(* No live item is ever lost (both versions, every schedule): every instance that the client
+   calls made so far leave live - enqueued, not dequeued or replaced since - is in the queue or
+   has been handed to the callback.  (The converse, "only live instances are executed", is
+   C06_exactly_once; together: queue + log = the live instances.) *)
+Theorem C06_no_live_item_lost : forall v t evs s,
+  run v (init_at t) evs = Some s ->
+  forall it, In it (live_after evs) -> In it (q s) \/ In it (map fst (executed s)).
+Proof. exact no_live_item_lost. Qed.
+Print Assumptions C06_no_live_item_lost.
+
+(* The first clause of the property in full, code after the fix, timely schedules (the clock moves
+   only when no internal event is enabled), distinct objects: whenever the processor is at rest
+   with the stop channel open, EVERY item enqueued and not later dequeued or replaced whose
+   scheduled time the clock has reached has been handed to the callback - exactly once (the log
+   holds no id twice), less than 0.5 ms before its scheduled time at the earliest, at a clock
+   value the clock had really reached. *)
+Theorem C06_due_live_items_run_exactly_once : forall t evs s,
+  fresh_ids evs -> trun Fixed (init_at t) evs s -> at_rest Fixed s -> stopch s = false ->
+  NoDup (map xid (executed s)) /\
+  forall it, In it (live_after evs) -> (idue it <= clock s)%Z ->
+    exists tm, In (it, tm) (executed s) /\ (idue it - half_ms < tm)%Z /\ (tm <= clock s)%Z.
+Proof. exact due_live_items_run_exactly_once. Qed.
+Print Assumptions C06_due_live_items_run_exactly_once.
+
+(* The correspondence search itself (Check.v).  [settle_m m] - "run the model's internal events
+   from m until nothing is enabled" - never gives up for lack of fuel (its fuel is the measure of
+   C06_progress_measure), returns only rest points, and every state it returns is reached from m
+   by internal events of Model.step: the model side of the check is a terminating, sound
+   exploration of the model the theorems are about. *)
+Theorem C06_check_settle : forall m,
+  settle_m m <> [] /\
+  forall m', In m' (settle_m m) ->
+    succs m' = [] /\ lv m' = lv m /\
+    exists evs, Forall (fun e => internal e = true) evs /\ run Fixed (st m) evs = Some (st m').
+Proof. exact settle_m_spec. Qed.
+Print Assumptions C06_check_settle.
+
+(* Every simulation state the check carries for a script (whatever the observations) is a
+   REACHABLE state of the model - [run Fixed (init_at c0) evs] for some schedule evs - and its [lv]
+   component is live_after of that schedule's client calls; hence every theorem above about
+   reachable states holds of the states the check compares the implementation with, and the
+   [covered] test evaluated on them at every step (C06_no_live_item_lost as a boolean) holds. *)
+Theorem C06_check_states_reachable : forall c0 h,
+  Forall (fun m => (exists evs, run Fixed (init_at c0) evs = Some (st m) /\ lv m = live_after evs) /\
+                   covered m = true)
+         (sim_hist h [sim0 c0]).
+Proof. exact check_states_reachable_covered. Qed.
+Print Assumptions C06_check_states_reachable.
 
 (* The boolean oracle evaluated on what the implementation was observed to do decides the
    specification of Spec.v (exactly once, not early, in order, removed items never run, due live
